@@ -27,6 +27,13 @@ def tree_hash(root):
         t = getattr(n, "target", None)
         if isinstance(t, str):
             out.append(t)
+        # plain attributes set by the passes that only mark nodes (vlist, isInfobox, short paragraph flags, colspan ...)
+        for k in sorted(getattr(n, "__dict__", ())):
+            if k in ("parent", "children", "caption", "target") or k.startswith("_"):
+                continue
+            v = n.__dict__[k]
+            if isinstance(v, (str, int, float, bool, dict, type(None))):
+                out.append("%s=%r" % (k, v))
         out.append("(")
         for c in n.children:
             rec(c)
